@@ -499,6 +499,7 @@ DS_SETS = [None, [], ['0'], ['+'], ['0', '+'], ['S'], ['e'], ['+', 'S'], ['+', '
 def run(ctx):
     rng = ctx.rng
     ctx.lean = common.lean_check('C10')
+    common.run_regressions(ctx, 'C10', lambda r: recheck(r))
     quick = ctx.quick()
     seqs = [s for s in cone_sequences(3 if quick else 4)]
     if quick:
@@ -510,7 +511,7 @@ def run(ctx):
     ctx.extra['exhaustive_cone_sequences'] = len(seqs)
     nrand = 150 if quick else 1500
     seqs_r = [rand_K(rng) for _ in range(nrand)]
-    corpus = common.load_corpus('C10')
+    corpus = [c for c in common.load_corpus('C10') if 'regress' not in c]
 
     ecos_cases = [c['case'] for c in corpus if c.get('kind') == 'ecos']
     pts_of = {}
@@ -705,3 +706,6 @@ def replay(obj):
     print('implementation returned:', common.canon_json(out))
     print('oracle:', why or 'ok')
     return 1 if why else 0
+
+
+recheck = common.recheck_via_replay(replay)
